@@ -33,6 +33,13 @@ def run(chk):
             n = 3 if calls[0]["op"] == "configure" else 2
             extremes.append({"config": {"terminal_id": "11112222"}, "calls": calls,
                              "plan": {"exchanges": [okp] * n + [{"o": "unexpected", "kind": kind}], "default": okp}})
+    # a dangling pre-authorisation whose reversal the terminal keeps refusing (it stays pending): the clean-up must give up
+    for code in (180, 0, 255, 160):
+        for calls in ([{"op": "begin", "token": [97]}, {"op": "commit", "token": [97], "amount": [1]}, {"op": "read_card"}],
+                      [{"op": "begin", "token": [97]}, {"op": "cancel", "token": [97]}, {"op": "read_card"}], [{"op": "configure"}, {"op": "read_card"}]):
+            n = 3 if calls[0]["op"] == "configure" else 2
+            extremes.append({"config": {"terminal_id": "11112222"}, "term": {"dangling": [4711]}, "calls": calls,
+                             "plan": {"exchanges": [okp] * n, "default": {"o": "abort", "code": code}}})
     total = 0
     for label, binary in (("debug", dbg), ("release", rel)):
         out = cl.run_scenarios(binary, sc + extremes, wd, "c10" + label)
